@@ -60,6 +60,8 @@ type e13 struct {
 	n      int
 
 	allFeeds []*lcFeed
+	ttl      map[string]bool // stores (by location key) that have ever held a document with an expiry
+	tainted  map[string]bool // directories into which a foreign file was dropped (they cannot be removed)
 }
 
 func (e *e13) logf(format string, args ...any) {
@@ -179,7 +181,27 @@ func (e *e13) doStep(op *Op) *Violation {
 	case "Open":
 		name, loc, mode := op.Key, op.Path, op.CasMode
 		lk := e.locKey(name, loc)
+		faulty := op.Amt > 0 && !e.ttl[lk]
+		if faulty {
+			// one statement of this open fails (not on a store that holds documents with an expiry: its
+			// sweep may start at once on another goroutine, where a failing statement is a panic)
+			ArmStmtFault(int(op.Amt))
+		}
 		b, err := rosmar.OpenBucket(e.url(loc), name, modeOf(mode))
+		if faulty {
+			DisarmStmtFault()
+			if err != nil && injectedFailure(&Res{Err: EOther, ErrText: err.Error()}) {
+				// the open was hit by the injected failure and said so: nothing may have changed - no new
+				// registration, no reference taken, and above all an existing bucket still there
+				// (probeAll looks at every handle, the registry and the directories)
+				e.logf("#%d Open(slot %d, %s @%s, %s) failed under an injected statement failure", e.step, slot, name, loc, mode)
+				if e.res.Stats.Faults == nil {
+					e.res.Stats.Faults = map[string]int{}
+				}
+				e.res.Stats.Faults["statement-failed(open)"]++
+				return nil
+			}
+		}
 		regLoc, registered := e.reg[name]
 		st := e.stores[lk]
 		// what the statement fixes
@@ -206,6 +228,9 @@ func (e *e13) doStep(op *Op) *Violation {
 			}
 			if exists && st.name != name {
 				either = true // a directory created under another bucket name: not covered by the statement
+			}
+			if !exists && e.tainted[lk] {
+				either = true // the directory outlived the deletion of its bucket (foreign file in it)
 			}
 		}
 		e.logf("#%d Open(slot %d, %s @%s, %s) -> err=%v   [%s]", e.step, slot, name, loc, mode, err != nil, why)
@@ -265,7 +290,7 @@ func (e *e13) doStep(op *Op) *Violation {
 			return nil // (deleting through a closed handle, or one of an already deleted bucket, is outside the statement)
 		}
 		err := h.b.CloseAndDelete(context.Background())
-		e.logf("#%d CloseAndDelete(slot %d %s) -> %v", e.step, slot, h.name, err)
+		e.logf("#%d CloseAndDelete(slot %d %s) -> %s", e.step, slot, h.name, strings.ReplaceAll(fmt.Sprint(err), e.root, "<root>"))
 		e.res.Stats.Cells[fmt.Sprintf("closedelete|open=%v|killed=%v|%s", h.open, h.killed, h.loc)]++
 		if h.killed || !h.open {
 			// deleting through a handle that is already closed / whose store is gone: unspecified
@@ -276,9 +301,11 @@ func (e *e13) doStep(op *Op) *Violation {
 			h.open = false
 			return nil
 		}
-		if err != nil {
+		if err != nil && !e.tainted[e.locKey(h.name, h.loc)] {
 			return e.violate("closedelete.error", "step %d CloseAndDelete through an open handle of %q failed: %v", e.step, h.name, err)
 		}
+		// (with a foreign file in the directory the removal of the directory fails and the call may say
+		// so; the bucket is gone all the same: closed, unregistered, its database file removed)
 		e.dropStore(h.name, e.locKey(h.name, h.loc))
 		h.open = false
 		e.res.Stats.NonTrivial = true
@@ -301,6 +328,20 @@ func (e *e13) doStep(op *Op) *Violation {
 		h.store.feeds = append(h.store.feeds, f)
 		e.allFeeds = append(e.allFeeds, f)
 		e.logf("#%d StartFeed(slot %d %s) = %s", e.step, slot, h.name, f.id)
+	case "Stray":
+		// the environment misbehaves: somebody drops a file into the bucket's directory
+		h := e.slots[slot]
+		if h == nil || h.loc == "mem" || e.stores[e.locKey(h.name, h.loc)] == nil {
+			return nil
+		}
+		lk := e.locKey(h.name, h.loc)
+		if err := os.WriteFile(filepath.Join(lk, "zz-not-rosmar.txt"), []byte("x"), 0600); err == nil {
+			if e.tainted == nil {
+				e.tainted = map[string]bool{}
+			}
+			e.tainted[lk] = true
+			e.logf("#%d Stray(%s)", e.step, h.loc)
+		}
 	case "Idle":
 		// nothing happens for a while (simulated time): every store must still be there afterwards
 		time.Sleep(time.Duration(op.Dur) * time.Second)
@@ -320,6 +361,19 @@ func (e *e13) doStep(op *Op) *Violation {
 		if err == nil {
 			h.store.data[op.Key] = val
 			e.wrote(h.store)
+			if op.ExpVal > 0 {
+				// an untracked document with a near deadline: it arms the bucket's expiry timer, which
+				// must go on working (and harm nobody) whatever happens to the handles afterwards
+				if e.dsOf(h, func(ds sgbucket.DataStore) error {
+					return ds.Set(fmt.Sprintf("ttl%d", e.n), op.ExpVal, nil, []byte(val))
+				}) == nil {
+					e.wrote(h.store)
+					if e.ttl == nil {
+						e.ttl = map[string]bool{}
+					}
+					e.ttl[e.locKey(h.name, h.loc)] = true
+				}
+			}
 		}
 	}
 	return nil
@@ -353,10 +407,10 @@ func (e *e13) checkFeeds() *Violation {
 		case f.unknown:
 		default:
 			if f.log.IsDone() {
-				return &Violation{Tags: []string{"C16"}, Oracle: "lifecycle.feed-ended-early", Msg: fmt.Sprintf("step %d: feed %s has ended although its bucket still has open handles (closing other handles, or handles of another bucket of that name, must not stop it)", e.step, f.id), Step: e.step}
+				return &Violation{Tags: []string{"C16", "C13"}, Oracle: "lifecycle.feed-ended-early", Msg: fmt.Sprintf("step %d: feed %s has ended although its bucket still has open handles (closing other handles, or handles of another bucket of that name, must not stop it)", e.step, f.id), Step: e.step}
 			}
 			if n < f.expected {
-				return &Violation{Tags: []string{"C16", "C08"}, Oracle: "lifecycle.feed-starved", Msg: fmt.Sprintf("step %d: feed %s has received %d of the %d mutations made to its bucket since it started", e.step, f.id, n, f.expected), Step: e.step}
+				return &Violation{Tags: []string{"C16", "C08", "C13"}, Oracle: "lifecycle.feed-starved", Msg: fmt.Sprintf("step %d: feed %s has received %d of the %d mutations made to its bucket since it started", e.step, f.id, n, f.expected), Step: e.step}
 			}
 		}
 	}
@@ -514,6 +568,7 @@ func GenE13(prop string, seed uint64) *Program {
 	}
 	modes := []string{"any", "any", "new", "reopen"}
 	withFeeds := prop == "C16" || r.Chance(30)
+	withStray := r.Chance(25)
 	type slotState struct{ used, open bool }
 	slots := make([]slotState, 5)
 	// which name a directory was created under (the generator keeps one name per directory)
@@ -546,7 +601,11 @@ func GenE13(prop string, seed uint64) *Program {
 					dirName[loc] = name
 				}
 			}
-			prog.Ops = append(prog.Ops, Op{Kind: "Open", Handle: free, Key: name, Path: loc, CasMode: modes[r.Intn(len(modes))]})
+			op := Op{Kind: "Open", Handle: free, Key: name, Path: loc, CasMode: modes[r.Intn(len(modes))]}
+			if r.Chance(12) {
+				op.Amt = uint64(1 + r.Intn(30))
+			}
+			prog.Ops = append(prog.Ops, op)
 			slots[free] = slotState{used: true, open: true} // (if the open fails the slot simply stays as it was)
 		case t < 60 && len(used) > 0:
 			s := used[r.Intn(len(used))]
@@ -559,13 +618,19 @@ func GenE13(prop string, seed uint64) *Program {
 			for d := range dirName {
 				_ = d
 			}
+		case t >= 84 && t < 87 && len(used) > 0 && withStray:
+			prog.Ops = append(prog.Ops, Op{Kind: "Stray", Handle: used[r.Intn(len(used))]})
 		case t < 84 && t >= 78 && len(used) > 0 && withFeeds:
 			prog.Ops = append(prog.Ops, Op{Kind: "StartFeed", Handle: used[r.Intn(len(used))]})
 		case t < 78 && len(used) > 0:
 			prog.Ops = append(prog.Ops, Op{Kind: "Idle", Dur: []int{2, 10, 90, 700, 4000}[r.Intn(5)]})
 		case len(used) > 0:
 			s := used[r.Intn(len(used))]
-			prog.Ops = append(prog.Ops, Op{Kind: "Write", Handle: s, Key: fmt.Sprintf("k%d", r.Intn(3))})
+			w := Op{Kind: "Write", Handle: s, Key: fmt.Sprintf("k%d", r.Intn(3))}
+			if r.Chance(20) {
+				w.ExpVal = uint32(1 + r.Intn(3))
+			}
+			prog.Ops = append(prog.Ops, w)
 		}
 	}
 	return prog
